@@ -192,6 +192,20 @@ func (R *Run) ruleSingleBufferedReader() {
 			if depth > 3 {
 				return
 			}
+			// the connection seen through io.LimitReader / io.TeeReader is still the connection
+			alias := map[ssa.Value]bool{connVal: true}
+			for changed := true; changed; {
+				changed = false
+				for _, ci := range callsIn(f) {
+					c := ci.Common()
+					if n := calleeName(c); (n == "io.LimitReader" || n == "io.TeeReader") && len(c.Args) > 0 && alias[stripConv(c.Args[0])] {
+						if v, ok := ci.(ssa.Value); ok && !alias[v] {
+							alias[v] = true
+							changed = true
+						}
+					}
+				}
+			}
 			for _, ci := range callsIn(f) {
 				c := ci.Common()
 				top := via
@@ -201,12 +215,12 @@ func (R *Run) ruleSingleBufferedReader() {
 				uses := false
 				argIdx := -1
 				for i, a := range c.Args {
-					if stripConv(a) == connVal {
+					if alias[stripConv(a)] {
 						uses = true
 						argIdx = i
 					}
 				}
-				if c.IsInvoke() && stripConv(c.Value) == connVal {
+				if c.IsInvoke() && alias[stripConv(c.Value)] {
 					if c.Method.Name() == "Read" {
 						rawReads = append(rawReads, wrap{P.ipos(ci), top, "Read"})
 					}
